@@ -418,6 +418,15 @@ struct TagHome {
     d_away: usize,
     /// (tag class 0 context / 1 application / 2 private, number, keyword 0 none / 1 IMPLICIT / 2 EXPLICIT, type index, OPTIONAL)
     members: Vec<(u8, u8, u8, u8, bool)>,
+    /// the template's members carry no tags (automatic tagging, where it applies, is the
+    /// template's module's business)
+    #[serde(default)]
+    untagged_template: bool,
+    /// EXTENSIBILITY IMPLIED in the home / in the using module
+    #[serde(default)]
+    ext_home: bool,
+    #[serde(default)]
+    ext_away: bool,
 }
 
 const TAG_DEFAULTS: [&str; 4] = ["", "EXPLICIT TAGS", "IMPLICIT TAGS", "AUTOMATIC TAGS"];
@@ -435,16 +444,30 @@ fn th_text(c: &TagHome) -> Vec<String> {
     };
     let base: Vec<String> = c.members.iter().enumerate().map(|(i, m)| comp(i, m, TH_TYPES[m.3 as usize % TH_TYPES.len()])).collect();
     // the template's members: the first is of the parameter type
-    let tmpl: Vec<String> = c.members.iter().enumerate().map(|(i, m)| comp(i, m, if i == 0 { "Tp" } else { TH_TYPES[m.3 as usize % TH_TYPES.len()] })).collect();
+    let tmpl: Vec<String> = c
+        .members
+        .iter()
+        .enumerate()
+        .map(|(i, m)| {
+            let ty = if i == 0 { "Tp" } else { TH_TYPES[m.3 as usize % TH_TYPES.len()] };
+            if c.untagged_template {
+                format!("m{i} {ty}{}", if m.4 { " OPTIONAL" } else { "" })
+            } else {
+                comp(i, m, ty)
+            }
+        })
+        .collect();
     let defs = format!(
-        "Tg-Defs DEFINITIONS {} ::= BEGIN\nBase ::= SEQUENCE {{ {} }}\nTmpl {{Tp}} ::= SEQUENCE {{ {} }}\nHome-Comp ::= SEQUENCE {{ lead [30] NULL, COMPONENTS OF Base }}\nHome-Inst ::= Tmpl {{ INTEGER }}\nEND\n",
+        "Tg-Defs DEFINITIONS {}{} ::= BEGIN\nBase ::= SEQUENCE {{ {} }}\nTmpl {{Tp}} ::= SEQUENCE {{ {} }}\nHome-Comp ::= SEQUENCE {{ lead [30] NULL, COMPONENTS OF Base }}\nHome-Inst ::= Tmpl {{ INTEGER }}\nEND\n",
         TAG_DEFAULTS[c.d_home % 4],
+        if c.ext_home { " EXTENSIBILITY IMPLIED" } else { "" },
         base.join(", "),
         tmpl.join(", ")
     );
     let user = format!(
-        "Tg-User DEFINITIONS {} ::= BEGIN\nIMPORTS Base, Tmpl FROM Tg-Defs;\nAway-Comp ::= SEQUENCE {{ lead [30] NULL, COMPONENTS OF Base }}\nAway-Inst ::= Tmpl {{ INTEGER }}\nEND\n",
-        TAG_DEFAULTS[c.d_away % 4]
+        "Tg-User DEFINITIONS {}{} ::= BEGIN\nIMPORTS Base, Tmpl FROM Tg-Defs;\nAway-Comp ::= SEQUENCE {{ lead [30] NULL, COMPONENTS OF Base }}\nAway-Inst ::= Tmpl {{ INTEGER }}\nEND\n",
+        TAG_DEFAULTS[c.d_away % 4],
+        if c.ext_away { " EXTENSIBILITY IMPLIED" } else { "" }
     );
     vec![defs, user]
 }
@@ -459,6 +482,30 @@ fn th_eval(c: &TagHome) -> Result<Option<String>, String> {
         let (Some(hs), Some(as_)) = (home.find_struct(h), away.find_struct(a)) else {
             return Err(format!("{h} / {a} not generated"));
         };
+        // an instance is the template's text with the arguments put in: the defaults of the
+        // template's module decide whether it is tagged automatically and whether it is extensible
+        if h == "HomeInst" {
+            for flag in ["automatic_tags"] {
+                if hs.attrs.flags.contains(flag) != as_.attrs.flags.contains(flag) {
+                    return Ok(Some(format!(
+                        "[instance-defaults] {a} (instantiated in a module with `{}`) has {flag} = {}, the same instance made in the template's module (`{}`) has {}",
+                        TAG_DEFAULTS[c.d_away % 4],
+                        as_.attrs.flags.contains(flag),
+                        TAG_DEFAULTS[c.d_home % 4],
+                        hs.attrs.flags.contains(flag)
+                    )));
+                }
+            }
+            if hs.attrs.non_exhaustive != as_.attrs.non_exhaustive {
+                return Ok(Some(format!(
+                    "[instance-defaults] {a} is {}extensible, the same instance made in the template's module (EXTENSIBILITY IMPLIED: {}, using module: {}) is {}extensible",
+                    if as_.attrs.non_exhaustive { "" } else { "not " },
+                    c.ext_home,
+                    c.ext_away,
+                    if hs.attrs.non_exhaustive { "" } else { "not " }
+                )));
+            }
+        }
         for hf in &hs.fields {
             if hf.name == "lead" {
                 continue;
@@ -503,7 +550,10 @@ fn th_leg(ctx: &mut Ctx, tier: Tier, seed: u64) {
             // distinct tag numbers so that the SEQUENCE is valid whatever the tagging
             members.push((src.pick(3) as u8, (i * 3 + src.pick(3)) as u8, src.weighted(&[6, 2, 2]) as u8, src.pick(TH_TYPES.len()) as u8, src.chance(25)));
         }
-        cases.push(TagHome { d_home, d_away, members });
+        let untagged_template = src.chance(35);
+        let ext_home = src.chance(30);
+        let ext_away = src.chance(30);
+        cases.push(TagHome { d_home, d_away, members, untagged_template, ext_home, ext_away });
     }
     let results: Vec<(TagHome, Result<Option<String>, String>)> = cases.into_par_iter().map(|c| { let r = th_eval(&c); (c, r) }).collect();
     let mut reported = 0;
@@ -517,11 +567,14 @@ fn th_leg(ctx: &mut Ctx, tier: Tier, seed: u64) {
                 ctx.class(&format!("taghome:home={} away={}", TAG_DEFAULTS[c.d_home % 4], TAG_DEFAULTS[c.d_away % 4]));
                 if let Some(d) = res {
                     ctx.class("fails:taghome");
-                    if reported < 3 {
-                        reported += 1;
+                    let listed = d.starts_with("[instance-defaults]") && ctx.is_known("F-instance-defaults");
+                    if listed || reported < 3 {
+                        if !listed {
+                            reported += 1;
+                        }
                         // smallest failing prefix of the member list
                         let mut small = c.clone();
-                        while small.members.len() > 1 {
+                        while !listed && small.members.len() > 1 {
                             let mut t2 = small.clone();
                             t2.members.pop();
                             if matches!(th_eval(&t2), Ok(Some(_))) {
@@ -532,7 +585,7 @@ fn th_leg(ctx: &mut Ctx, tier: Tier, seed: u64) {
                         }
                         let d = match th_eval(&small) { Ok(Some(d2)) => d2, _ => d };
                         ctx.fail(Failure {
-                            finding: None,
+                            finding: if d.starts_with("[instance-defaults]") { Some("F-instance-defaults") } else { None },
                             what: format!("tagging default leaks into copied components: {d}"),
                             replay: json!({"kind": "c12-taghome", "case": small, "sources": th_text(&small).iter().enumerate().map(|(i, t)| json!({"name": format!("m{i}.asn"), "text": t})).collect::<Vec<_>>(), "observed": d}),
                         });
@@ -572,7 +625,7 @@ pub fn run(tier: Tier, seed: u64, replay: Option<String>) -> i32 {
                     Ok(res) => {
                         ctx.case(&th_text(&c).join("\n"), true);
                         if let Some(d) = res {
-                            ctx.fail(Failure { finding: None, what: format!("tagging default leaks into copied components: {d}"), replay: v.clone() });
+                            ctx.fail(Failure { finding: if d.starts_with("[instance-defaults]") { Some("F-instance-defaults") } else { None }, what: format!("tagging default leaks into copied components: {d}"), replay: v.clone() });
                         }
                     }
                 }
